@@ -84,28 +84,28 @@ Proof. intros wrap h b t s. split; reflexivity. Qed.
    aliasing, so the regenerated term leaves b_pdu unpatched). ---- *)
 From V Require Import Prelude.PyAst Prelude.PyWorld gen.F_client Model.Verification Model.Gkdi Flow.World_client Proofs.Flow_client_frame.
 
-Theorem C13_flow_create_pdu_header : forall wrap unwrap pfuel sch fuel c pt al cid fl,
-  run (WC wrap unwrap pfuel sch) fuel k_flow_create_pdu_header [VO (OSelf c); VI pt; VI al; VI cid; VI fl]
+Theorem C13_flow_create_pdu_header : forall wrap unwrap sch fuel c pt al cid fl,
+  run (WC wrap unwrap sch) fuel k_flow_create_pdu_header [VO (OSelf c); VI pt; VI al; VI cid; VI fl]
   = Ok (VO (OHdr (create_pdu_header pt al cid fl))).
 Proof. exact flow_create_pdu_header. Qed.
 Print Assumptions C13_flow_create_pdu_header.
 
-Theorem C13_flow_create_request : forall wrap unwrap pfuel sch fuel c cid op stub vt,
-  run (WC wrap unwrap pfuel sch) fuel k_flow_create_request [VO (OSelf c); VI cid; VI op; VB stub; vtv vt]
+Theorem C13_flow_create_request : forall wrap unwrap sch fuel c cid op stub vt,
+  run (WC wrap unwrap sch) fuel k_flow_create_request [VO (OSelf c); VI cid; VI op; VB stub; vtv vt]
   = Ok (VT [VO (OReq (fst (create_request (cl_auth c) cid op stub (option_map verification_trailer_pack vt))));
             offv (snd (create_request (cl_auth c) cid op stub (option_map verification_trailer_pack vt)))]).
 Proof. exact flow_create_request. Qed.
 Print Assumptions C13_flow_create_request.
 
 (* AuthenticationProvider.wrap: what prepare_pdu puts on the wire for the sealed request *)
-Theorem C13_flow_auth_wrap : forall (wrap : wrap_fn) unwrap pfuel sch fuel ap h b t (sign : bool),
-  run (WC wrap unwrap pfuel sch) fuel k_flow_auth_wrap [VO (OAuthP ap); VB h; VB b; VB t; vb sign]
+Theorem C13_flow_auth_wrap : forall (wrap : wrap_fn) unwrap sch fuel ap h b t (sign : bool),
+  run (WC wrap unwrap sch) fuel k_flow_auth_wrap [VO (OAuthP ap); VB h; VB b; VB t; vb sign]
   = Ok (VB (h ++ fst (wrap h b t sign) ++ t ++ snd (wrap h b t sign))).
 Proof. exact flow_auth_wrap. Qed.
 Print Assumptions C13_flow_auth_wrap.
 
-Theorem C13_flow_strip_get_key_result : forall wrap unwrap pfuel sch fuel rsp,
-  run (WC wrap unwrap pfuel sch) fuel k_flow_strip_get_key_result [VO (OResp rsp)]
+Theorem C13_flow_strip_get_key_result : forall wrap unwrap sch fuel rsp,
+  run (WC wrap unwrap sch) fuel k_flow_strip_get_key_result [VO (OResp rsp)]
   = (let* e := GetKey_unpack_response
                  (strip_auth_pad (rs_stub_data rsp) (option_map st_pad_length (rs_sec_trailer rsp))) in
      Ok (VO (OEnvl e))).
